@@ -653,8 +653,8 @@ def apply_manip(k, scn, art, m, sink, base_case):
         w = rewire(k, wire, payload=payload + unhx(m["x"]))
     elif t == "key":
         must_fail = "other context's keys"
-        if ctx.recipient_key == make_ctx(k, scn, role).recipient_key:
-            raise HarnessError("key derivation gave equal keys for different contexts")
+        # (equal keys for contexts that differ in secret, salt or ID context are not a harness problem but the
+        # defect itself: the message is then accepted below, which the oracle reports)
         w = wire
     elif t == "rid":
         must_fail = "foreign request identifiers"
